@@ -66,7 +66,7 @@ def run(ck, replay=None):
         raise common.Infra('more than half of the behaviours could not be aligned with the code: %s' % deviations)
     nt = 300 if quick else 3000
     validated = 0
-    for label, flags, cnt in (('types', ['-types'], nt), ('typesfc', ['-types', '-forceclose'], nt), ('storm', ['-types', '-storm'], nt * 10)):
+    for label, flags, cnt in (('types', ['-types'], nt), ('typesfc', ['-types', '-forceclose'], nt), ('storm', ['-types', '-storm'], nt * 5)):
         for k in range(1 if quick else 4):
             r, tr, nlines = streamlib.drive_and_validate(ck, ck.seed * 131 + k, cnt, flags, 64, '%s%d' % (label, k))
             ck.add_tlc(r)
